@@ -43,6 +43,21 @@ def passloop_model(out, tier):
         raise ToolError("PassLoop.tla (N = 4, slice): design properties violated:\n" + r4.out[-2500:])
     info["PassLoop N=4 slice (all graphs with out-degree <= 2, no kills, one generating node, 2 runs)"] = \
         {"distinct_states": r4.distinct, "result": "SweepBound, FixedPoint, Stable, AllVisited hold"}
+    # the u_def computation inside LivenessPass::run: the same skeleton without a wait rule; "not visited yet" is
+    # "everything" (7f73c33).  The scheme before that (empty set for a node none of whose predecessors was visited)
+    # must be refuted at N = 4: sets that grow and shrink in turns for ever.
+    ru = run_tlc("PassLoop", cfg="PassLoop_Udef", workers=8, heap="8g", timeout=1500)
+    out.add_tlc(ru)
+    if ru.rc != 0:
+        raise ToolError("PassLoop.tla (u_def scheme): design properties violated:\n" + ru.out[-2500:])
+    info["PassLoop_Udef N=3 (the u_def scheme of the liveness pass: no wait rule, unvisited predecessors are 'everything', 3 runs with an edge cut between)"] = \
+        {"distinct_states": ru.distinct, "result": "FixedPoint, Stable, AllVisited, Terminates hold"}
+    ruo = run_tlc("PassLoop", cfg="PassLoop_Udef_old", workers=8, heap="8g", timeout=1500)
+    out.add_tlc(ruo)
+    if "Invariant SweepBound is violated" not in ruo.out:
+        raise ToolError("negative control PassLoop_Udef_old (u_def scheme before 7f73c33, N = 4) was not refuted")
+    info["PassLoop_Udef_old (negative control, N = 4: a node none of whose predecessors was visited starts from the empty set)"] = \
+        "refuted: Invariant SweepBound is violated (the sets of an unreachable loop grow and shrink in turns for ever)"
     # the rounds of value analysis and ecall termination in Manager::gen_full_cfg
     rp = run_tlc("Pipeline", cfg="Pipeline", workers=8, heap="12g", timeout=1800)
     out.add_tlc(rp)
@@ -62,6 +77,11 @@ def passloop_model(out, tier):
         if r.rc != 0:
             raise ToolError("PassLoop.tla (N=4): design properties violated:\n" + r.out[-2500:])
         info["PassLoop N=4 (2 runs)"] = {"distinct_states": r.distinct, "result": "SweepBound, FixedPoint, Stable, AllVisited hold"}
+        r5 = run_tlc("PassLoop", cfg="PassLoop_Udef_n4", workers=12, heap="24g", timeout=7200)
+        out.add_tlc(r5)
+        if r5.rc != 0:
+            raise ToolError("PassLoop.tla (u_def scheme, N=4): design properties violated:\n" + r5.out[-2500:])
+        info["PassLoop_Udef N=4 (2 runs)"] = {"distinct_states": r5.distinct, "result": "FixedPoint, Stable, AllVisited hold; the state graph is finite (depth 52), so every run ends"}
         r2 = run_tlc("PassLoop", cfg="PassLoop_2f", workers=12, heap="24g", timeout=7200)
         out.add_tlc(r2)
         if r2.rc != 0:
@@ -166,6 +186,8 @@ def run(tier, replay=None):
         dres = tlc_generate("Gen_DeadCode", cfg="Gen_DeadCode4", heap="6g")
         out.add_tlc(dres[1])
         dead = [c["text"] for c in dres[0]]
+        if tier == "quick":      # 14^4 regions: a third of them, rotating with the seed (all in the thorough tier)
+            dead = [t for i, t in enumerate(dead) if i % 3 == seed() % 3]
         d3 = tlc_generate("Gen_DeadCode", cfg="Gen_DeadCode3r", heap="6g")
         out.add_tlc(d3[1])
         dead += [c["text"] for c in d3[0]]
